@@ -705,6 +705,30 @@ func c03Work(c *engine.Ctx) {
 			emitTree(a.src, a.exp, "", false)
 		}
 	}
+	// class elements: every modifier combination × every kind of name, in particular the names that are modifiers
+	// themselves (get, set, async, static)
+	{
+		names := [][2]string{{"a", "a"}, {"get", "get"}, {"set", "set"}, {"async", "async"}, {"static", "static"}, {"'k'", "k"}, {"1", "1"}, {"[k]", "[k]"}, {"#p", "#p"}, {"of", "of"}, {"await", "await"}}
+		for _, nm := range names {
+			for _, st := range []string{"", "static "} {
+				type member struct{ src, exp string }
+				ms := []member{
+					{nm[0] + "(){}", "Method(" + st + nm[1] + " Params() Stmt({ }))"},
+					{"get " + nm[0] + "(){}", "Method(" + st + "get " + nm[1] + " Params() Stmt({ }))"},
+					{"set " + nm[0] + "(v){}", "Method(" + st + "set " + nm[1] + " Params(Binding(v)) Stmt({ }))"},
+					{"async " + nm[0] + "(){}", "Method(" + st + "async " + nm[1] + " Params() Stmt({ }))"},
+					{"*" + nm[0] + "(){}", "Method(" + st + "* " + nm[1] + " Params() Stmt({ }))"},
+					{"async*" + nm[0] + "(){}", "Method(" + st + "async * " + nm[1] + " Params() Stmt({ }))"},
+					{nm[0] + ";", "Field(" + st + nm[1] + ")"},
+					{nm[0] + "=1;", "Field(" + st + nm[1] + " = 1)"},
+				}
+				for _, m := range ms {
+					emitTree("class A{"+st+m.src+"}", "Decl(class A "+m.exp+")", "", false)
+					emitTree("x=class{"+st+m.src+"m(){}}", "Stmt(x=Decl(class "+m.exp+" Method(m Params() Stmt({ }))))", "", false)
+				}
+			}
+		}
+	}
 	// flat repetition: size without nesting (lists of statements, elements, arguments, properties, members, cases,
 	// bindings, parameters, substitutions; chains of binary or member operators are left out: they are nested in the
 	// grammar's derivation and in the tree, and the documented NestedExprLimit applies to them)
